@@ -25,7 +25,7 @@ PROP = dict(
     model_files="coq/Storage/StoreHooks.v coq/Storage/Restart.v coq/Storage/Crash.v coq/Storage/RestartEngine.v",
     rule="every k in 0..(number of writes) of: the 18 directed histories of C20 (incl. Clean Start 1 over a live and over an offline session with unacknowledged QoS 1/2 messages) (bolt+redis; thorough all four) and random "
          "histories of 5..20 client operations (quick 10, alternating bolt/redis; thorough 100 on pebble+bolt+redis, "
-         "every 10th also badger).  non-trivial = k > 2; distinct = distinct case lines",
+         "every 10th also badger).  plus the two-life histories of C20 (a killed first process is a crash followed by further operation on the same store) as complete cases.  non-trivial = k > 2; distinct = distinct case lines",
     exhaustive=False,
     modelled="as C20; crash = prefix of the write log",
     assumptions=["as C20", "a single storage write is atomic and durable in the engine",
